@@ -38,6 +38,7 @@ def vc_access(ctx):
     """VClock::get = stored counter or 0; is_empty = no entry; dot(a) = Dot{a, get(a)}; iter / into_iter yield every
     entry as Dot{actor, counter}; from_iter / From<Dot> apply every given dot to an empty clock."""
     facts = ctx.facts
+    from ..ordset import Reach, Evaluator
     # get
     body = ctx.inherent(VCLOCK, 'get')
     r = interp(facts, body).ret
@@ -48,6 +49,14 @@ def vc_access(ctx):
         e = elem_of(x)
         ok = bool(e and param_path(e[0]) == (1, ('dots',)) and versionless(e[1]) == ('param', 2) and e[2] == 'value'
                   and drop_lv(d)[0] == 'const' and drop_lv(d)[1] == 0)
+        if ok and drop_lv(r)[0] == 'phi':
+            # two-armed form: the constant arm must be the absent case and nothing else (a constant answered on some other
+            # condition - a "fast path" - is a wrong counter for a present actor)
+            it_ = interp(facts, body)
+            rc_ = Reach(facts, body, Evaluator(facts, bool_atom=lambda t: clock_presence_atom(t, 1), assumption={'present': True}))
+            for (b_, _si), w_ in it_.ret_assigns.items():
+                if b_ in rc_.reachable and any(drop_lv(a_)[0] == 'const' for a_ in phi_alts(w_.val)):
+                    ok = False
     ctx.check(ok, 'get', body, 'stored counter of the actor, 0 when absent', 'VClock::get is %s, expected dots.get(actor) or 0' % fmt(r, 5))
     # is_empty
     body = ctx.inherent(VCLOCK, 'is_empty')
@@ -118,7 +127,8 @@ def vc_access(ctx):
                 nx = [st for st in subterms(a[1]) if is_call(st, 'next') and st[2] and param_path(versionless(st[2][0])) == (1, (fld,))]
                 if not nx:
                     good = False
-            ok2 = good
+            # .. and `None` only where the inner iterator is exhausted (an early `None` ends the walk before every dot was yielded)
+            ok2 = good and _literal_only_when_absent(facts, nb, fld)
     ctx.check(ok and ok2, 'into_iter', body, 'consumes dots, every entry as Dot{actor, counter}',
               'VClock::into_iter / IntoIter::next do not yield every entry of dots as Dot{actor, counter}')
     # from_iter: apply every dot to an empty clock
@@ -471,7 +481,15 @@ def type_impls(ctx):
     'C08': 'the decision to remember an overtaking remove compares clocks',
     'C02': 'merge decisions on both sides must use one and the same order',
     'C03': 'same decisions as op delivery',
-}, floor=4, inst_filter={'C14': lambda i: i.startswith(('identifier', 'dot::OrdDot')) or i in ('floor', 'anchor', 'internal'),
+    'C07': '[primitive] MERGE-DROP serves C07 and decides by `>=` on clocks',
+    'C17': '[primitive] Map::validate_merge recurses for concurrent clocks, decided through these operators / partial_cmp',
+    'C18': '[primitive] Orswot / Map reset_remove drop covered pending removes by a clock comparison',
+    'C20': '[primitive] a pending remove is stored only when the comparison says the replica has not seen it all',
+}, floor=4, inst_filter={'C07': lambda i: i.startswith('vclock') or i in ('floor', 'anchor', 'internal'),
+                         'C17': lambda i: i.startswith('vclock') or i in ('floor', 'anchor', 'internal'),
+                         'C18': lambda i: i.startswith('vclock') or i in ('floor', 'anchor', 'internal'),
+                         'C20': lambda i: i.startswith('vclock') or i in ('floor', 'anchor', 'internal'),
+                         'C14': lambda i: i.startswith(('identifier', 'dot::OrdDot')) or i in ('floor', 'anchor', 'internal'),
                          'C12': lambda i: i.startswith(('identifier', 'dot::OrdDot')) or i in ('floor', 'anchor', 'internal'),
                          'C06': lambda i: i.startswith('vclock') or i in ('floor', 'anchor', 'internal'),
                          'C08': lambda i: i.startswith('vclock') or i in ('floor', 'anchor', 'internal'),
@@ -698,6 +716,29 @@ ACC_SPEC = [
 NEW_EMPTY = [ORSWOT, MAP, MVREG, LIST, GLIST, MERKLE, VCLOCK, GCOUNTER, PNCOUNTER, GSET]
 
 
+def _literal_only_when_absent(facts, body, field):
+    """An Option-returning accessor may answer with a literal (`None`) only where the look-up it delegates to found nothing: in the
+    world where every look-up / selection in the body succeeds and the container is not empty, no return site yields a literal."""
+    it = interp(facts, body)
+    empt = emptiness_atom({'c': (1, (field,))})
+
+    def atom(t):
+        if t[0] == 'discr' and drop_lv(t[1])[0] == 'call':
+            return ('map', 'hit', {True: 1, False: 0})
+        if is_call(t, ('is_some', 'is_none')) and t[2] and drop_lv(t[2][0])[0] == 'call':
+            return 'hit' if call_name(t) == 'is_some' else ('not', 'hit')
+        return empt(t)
+    rc = Reach(facts, body, Evaluator(facts, bool_atom=atom, assumption={'hit': True, 'c': False}))
+    for (b_, _si), w in it.ret_assigns.items():
+        if b_ not in rc.reachable:
+            continue
+        for a_ in phi_alts(w.val):
+            a_ = drop_lv(a_)
+            if a_[0] == 'const' or is_variant(a_, 'option::Option', 'None'):
+                return False
+    return True
+
+
 @rule('ACC-PLAIN', floor=35, **read_attribution({}, module=None))   # what a replica shows: served per type through READ_OBSERVES
 def acc_plain(ctx):
     """Plain read accessors delegate to the container field they describe: len / is_empty of that field, a walk over all of it,
@@ -761,7 +802,10 @@ def acc_plain(ctx):
             while v[0] == 'call' and call_name(v) in ('clone', 'to_owned') and len(v[2]) == 1:
                 v = versionless(v[2][0])
             ok = v == ('field', ('param', 1), field)
-        ctx.check(ok, short, body, '%s of self.%s' % (kind, field), '%s is %s, expected the %s of self.%s' % (short, fmt(r, 5), kind, field))
+        if ok and kind in ('first', 'last', 'nth', 'lookup') and not _literal_only_when_absent(facts, body, field):
+            ok = False
+            why = ' (a literal answer is returned on a path where the container holds the element)'
+        ctx.check(ok, short, body, '%s of self.%s' % (kind, field), '%s is %s, expected the %s of self.%s%s' % (short, fmt(r, 5), kind, field, why))
     # constructors: `new()` is the empty replica
     for adt in NEW_EMPTY:
         body = facts.inherent_method(adt, 'new')
